@@ -167,6 +167,9 @@ class Decomposer:
             }
             solver_kwargs.setdefault("compute", self.compute)
             solver_kwargs.setdefault("n_power_iter", 4)
+            # Power iterations without re-orthonormalisation lose every direction whose
+            # singular value is small compared to the leading one
+            solver_kwargs.setdefault("iterator", "QR")
             U, s, VT = self._svd(X, dims, dask_svd, solver_kwargs)
             U, s, VT = self._compute_svd_result(U, s, VT)
         else:
